@@ -534,6 +534,34 @@ func (e *LinEnv) condFacts(cond ssa.Value, truth bool) []Fact {
 		if x.Op == token.NOT {
 			return e.condFacts(x.X, !truth)
 		}
+	case *ssa.Phi:
+		// `a && b` as a value (the case expression of a tagless switch): phi [A: false, B: b] where block A ends in `if a` and
+		// reaches the phi directly when a is false; the phi being true means a and b. Dually `a || b` being false.
+		if len(x.Edges) == 2 && len(x.Block().Preds) == 2 {
+			for i := 0; i < 2; i++ {
+				k, ok := x.Edges[i].(*ssa.Const)
+				if !ok || k.Value == nil || k.Value.Kind() != constant.Bool {
+					continue
+				}
+				short := constant.BoolVal(k.Value) // the value when the first operand decides
+				if short == truth {
+					continue // the phi has the short-circuit value: either operand may have produced it
+				}
+				first := x.Block().Preds[i]
+				iff, ok := first.Instrs[len(first.Instrs)-1].(*ssa.If)
+				if !ok || len(first.Succs) != 2 {
+					continue
+				}
+				// the first operand took the edge that does not lead straight to the phi
+				firstTruth := first.Succs[0] != x.Block()
+				if first.Succs[0] == x.Block() && first.Succs[1] == x.Block() {
+					continue
+				}
+				out := e.condFacts(iff.Cond, firstTruth)
+				out = append(out, e.condFacts(x.Edges[1-i], truth)...)
+				return out
+			}
+		}
 	case *ssa.BinOp:
 		if _, ok := x.X.Type().Underlying().(*types.Basic); !ok {
 			return nil
